@@ -255,6 +255,17 @@ def generate(repo):
              len(f.args.args) == 2, "add(self, result)", f)
         r = f.args.args[1].arg
         body = real_body(f)
+        gallina = ("Definition x_seqres_add {A} (present : bool) "
+                   "(old : list A) (x : A) : list A :=\n"
+                   "  if present then old ++ [x] else [x].")
+        # `d.setdefault(k, []).append(x)`: append to the key's list, the list
+        # being [] for a new key - the same function
+        if len(body) == 1 and isinstance(body[0], ast.Expr) and \
+                U(body[0].value) in (
+                    f"self.data.setdefault({r}.sequence_id, []).append({r})",
+                    f"self.data.setdefault({r}.sequence_id, list())"
+                    f".append({r})"):
+            return gallina, {'form': 'setdefault'}
         need(len(body) == 2, "add: two statements", f)
         need(isinstance(body[0], ast.Assign) and
              U(body[0].value) == f"{r}.sequence_id" and
@@ -348,6 +359,61 @@ def generate(repo):
         return ("Definition x_result_linked_before_any_return : bool := "
                 "true.", {})
     out.item('x_result_linked_before_any_return', result_init)
+
+    def eof_filter():
+        # SearchTask._process_sequence_results: the dictionary of incomplete
+        # sections is created once, before the loop over the definitions,
+        # and only ever extended (never re-assigned as a whole), so what one
+        # definition put there is still there for the export loop
+        with open(os.path.join(repo, 'searchkit/task.py'),
+                  encoding='utf-8') as fh:
+            tt = ast.parse(fh.read())
+        klass = find_def(tt, 'SearchTask')
+
+        def created_once(f, name, may_delegate):
+            whole = [n for n in ast.walk(f)
+                     if isinstance(n, (ast.Assign, ast.AugAssign,
+                                       ast.AnnAssign, ast.Delete,
+                                       ast.NamedExpr))
+                     and any(isinstance(t, ast.Name) and t.id == name
+                             for t in (n.targets if isinstance(
+                                 n, (ast.Assign, ast.Delete))
+                                 else [n.target]))]
+            need(len(whole) == 1, f"{f.name}: {name} is (re)assigned as a "
+                 f"whole {len(whole)} times", f)
+            body = real_body(f)
+            loops = [i for i, n in enumerate(body)
+                     if isinstance(n, (ast.For, ast.While))]
+            need(whole[0] in body and
+                 (not loops or min(loops) > body.index(whole[0])),
+                 f"{f.name}: {name} is not created before the loops",
+                 whole[0])
+            v = whole[0].value
+            if U(v) in ('{}', 'dict()'):
+                need(bool(loops), f"{f.name}: no loop after {name} = {{}}", f)
+                return
+            # the first loop extracted into a private helper that returns
+            # the dictionary it builds
+            need(may_delegate and isinstance(v, ast.Call) and
+                 isinstance(v.func, ast.Attribute) and
+                 U(v.func.value) == 'self' and v.func.attr.startswith('_'),
+                 f"{f.name}: {name} does not start empty: {U(v)}", whole[0])
+            hs = [m for m in klass.body if isinstance(m, ast.FunctionDef)
+                  and m.name == v.func.attr]
+            need(len(hs) == 1, f"helper {v.func.attr} not found", whole[0])
+            hb = real_body(hs[0])
+            rets = [n for n in ast.walk(hs[0]) if isinstance(n, ast.Return)]
+            need(len(rets) == 1 and hb[-1] is rets[0] and
+                 isinstance(rets[0].value, ast.Name),
+                 f"helper {v.func.attr} does not end in `return <dict>`",
+                 hs[0])
+            created_once(hs[0], rets[0].value.id, False)
+
+        created_once(find_def(tt, 'SearchTask._process_sequence_results'),
+                     'filter_section_id', True)
+        return ("Definition x_eof_filter_created_once_before_loop : bool := "
+                "true.", {})
+    out.item('x_eof_filter_created_once_before_loop', eof_filter)
 
     text = ("(* GENERATED from the repository working tree by "
             "translator/plugins/sequence.py - do not edit *)\n"
